@@ -1925,6 +1925,14 @@ val s_LOOPBACK : str
 
 val is_local : str -> bool
 
+val key_presentable : str -> bool
+
+val key_of_line : str -> str -> str
+
+val spec_key_lines : nat -> str -> str -> str
+
+val spec_presented_key : str -> str
+
 val spec_get_request : str -> (z * z) option
 
 val spec_window : 'a1 list -> z -> z -> 'a1 list
@@ -2039,6 +2047,12 @@ type start_res =
 | StartBadAddress of listen_res
 
 val start_decision : str -> str -> start_res
+
+val stored_key : str -> str
+
+val serve :
+  str -> str -> str -> (str -> verdict) -> bool -> str list -> outcome0
+  option res
 
 val as_verdict : val0 -> verdict
 
@@ -3639,14 +3653,15 @@ type phase0 =
 | PRun of watcher * bool * bool
 | PStop
 
-type proc = { p_ver : nat; p_req : request0; p_alive : bool; p_out : str list }
+type proc = { p_ver : nat; p_req : request0; p_alive : bool; p_open : 
+              bool; p_out : str list }
 
 type exit_mode =
 | ExitNoWait
 | ExitWaitsRunning
 | ExitWaitsStopped
 
-type policy = { pol_poll : bool; pol_exit : exit_mode }
+type policy = { pol_poll : bool; pol_exit : exit_mode; pol_early : bool }
 
 type state = { s_ui : uistate; s_tmpl : tmpl; s_visible : bool;
                s_version : nat; s_seen0 : (z * nat) option; s_pending : 
@@ -3695,6 +3710,7 @@ type label1 =
 | LPoll0
 | LOutput of str
 | LChildExit
+| LCloseOut
 | LExit
 | LQuitPub
 | LProcEnd
@@ -3703,9 +3719,15 @@ val hd_alive : proc list -> bool
 
 val upd_hd : proc list -> (proc -> proc) -> proc list
 
+val hd_open : proc list -> bool
+
 val kill_p : proc -> proc
 
 val out_p : str -> proc -> proc
+
+val close_p : proc -> proc
+
+val finish_w : watcher -> watcher
 
 val hd_out : proc list -> str list
 
@@ -3787,6 +3809,12 @@ val observe0 : policy -> state -> val0
 val settle : label1 list
 
 val canonical : label1 list -> label1 list
+
+val settle_closing : label1 list
+
+val canonical_closing : label1 list -> label1 list
+
+val d_canonical_closing : policy -> tmpl -> uistate -> label1 list -> val0
 
 val d_canonical : policy -> tmpl -> uistate -> label1 list -> val0
 
